@@ -129,6 +129,11 @@ func (c *Canary) Buf() []byte { return c.block[c.off : c.off+c.length : c.off+c.
 // Snapshot re-records the current block contents as the expected state.
 func (c *Canary) Snapshot() { c.copyB = append(c.copyB[:0], c.block...) }
 
+// Expect declares that the first n bytes of the buffer are now supposed to equal want[:n].
+func (c *Canary) Expect(want []byte) {
+	copy(c.copyB[c.off:], want)
+}
+
 // Check compares the whole block (margins, contents, spare capacity) with the private copy.
 // It returns the offset relative to the buffer start of the first difference, or ok.
 func (c *Canary) Check() (int, bool) {
